@@ -159,7 +159,9 @@ func recvTypeName(fd *ast.FuncDecl) string {
 }
 
 func classifyCopyStmt(fset *token.FileSet, src []byte, st ast.Stmt, fieldType map[string]string) string {
-	str := func(n ast.Node) string { return string(src[fset.Position(n.Pos()).Offset:fset.Position(n.End()).Offset]) }
+	str := func(n ast.Node) string {
+		return string(src[fset.Position(n.Pos()).Offset:fset.Position(n.End()).Offset])
+	}
 	s := str(st)
 	typeID := func(field string) string { return strings.TrimPrefix(strings.SplitN(fieldType[field], "[", 2)[0], "T") }
 	switch x := st.(type) {
